@@ -1,10 +1,10 @@
 #!/bin/bash
 # sequential thorough sweep, cheapest first
 out=/verif/.run_all_thorough.txt; : > $out
-for id in C15 C16 C13 C10 C14 C02 C17 C18 C08 C07 C03 C09 C19 C20 C11 C12 C05 C04 C01 C06; do
+for id in ${IDS:-C19 C15 C16 C13 C10 C14 C02 C03 C17 C18 C08 C07 C09 C20 C11 C12 C05 C04 C01 C06}; do
   s=$(date +%s)
   ./check $id --tier thorough > /verif/.run_all_$id.thorough.log 2>&1
   rc=$?
   echo "$id exit=$rc $(( $(date +%s) - s ))s $(tail -1 /verif/.run_all_$id.thorough.log | cut -c1-200)" >> $out
-  cp /verif/evidence/$id.json /verif/.evidence_thorough_$id.json 2>/dev/null
+  mkdir -p /verif/evidence_thorough; cp /verif/evidence/$id.json /verif/evidence_thorough/$id.json 2>/dev/null
 done
